@@ -1,54 +1,57 @@
 """C11 — Nesting depth cannot crash the process.
 
 What is proved (coq/Properties/C11.v) is what a model can carry: recursion depth / heap-stack length as functions of the
-nesting depth; for EVERY token stream the parser nests at most twice as deep as the tokens; for EVERY input the flow level of
-the scanned token stream stays within FLOW_LEVEL_MAX (generated Gen/Consts.v); composed: for EVERY text the nesting is at most
-2 * (255 + block collection starts + synthetic FlowMappingStart tokens); the refutation of any bound on block nesting and of
-"flow level <= L bounds the nesting"; the repaired '[ ? ] ,' family is rejected.  Bytes of stack per activation and the
-8 MiB limit are run-time facts, so the property itself is checked here:
+nesting depth; for EVERY token stream the parser nests at most twice as deep as the tokens; for EVERY input the scanner model
+keeps flow_level <= FLOW_LEVEL_MAX, at most BLOCK_NESTING_MAX block indents, and its token stream never has more open
+collection-start tokens than these stacks hold (Gen/Consts.v, generated from the Rust source); composed: for EVERY text the
+events of the model pipeline nest at most NEST_BOUND deep — a CONSTANT.  Bytes of stack per activation and the 8 MiB limit are
+run-time facts, so the property itself is checked here:
 
   implementation  build/cargo/{debug,release}/hx_c11 <shape> <depth> <api> — ONE scenario per child process, run on a
                   thread with an explicit 8 MiB stack; a stack overflow kills the child with a signal, which is the
                   observation (exit status + the `STAGE` lines printed before it died + the runtime's message on stderr).
-  oracle          per scenario: the child must end with `OK` or `ERR <message>` (an error VALUE); flow nesting must be `OK`
-                  up to depth 255 and `ERR ... recursion limit exceeded` from depth 256 on; anything else (killed by a
-                  signal, PANIC, timeout, strange exit status, flow depth > 255 accepted) is a violation — EXCEPT the
-                  recorded class of known_findings_c11.jsonl (a decidable predicate on shape, api, depth, see below).
-  tie             the witness family of theorem C11_block_family_accepted is the real scanner's output: `hx tokens` on
-                  "- " * d + "a" is compared with  StreamStart (BlockSequenceStart BlockEntry)^d Scalar BlockEnd^d StreamEnd,
-                  the extracted parser model is run on those real tokens and on the text (events == implementation's events,
-                  nesting depth d), the depth reported by hx_c11 equals the intended depth for every shape, and the flow
-                  limit of model (Err site 45 at FLOW_LEVEL_MAX) and implementation coincide in position and verdict.
+  oracle          per scenario: the child must end with `OK` or `ERR <message>` (an error VALUE); flow nesting and block nesting
+                  must be `OK` up to depth 255 and `ERR ... recursion limit exceeded` from depth 256 on; the repaired bypass
+                  families (qflow, colons, colonsok, cbrace) must end with their error value at every depth; anything else
+                  (killed by a signal, PANIC, timeout, strange exit status, nesting > 255 accepted) is a VIOLATION with the
+                  scenario as replay.  known_findings_c11.jsonl holds only `fixed` entries now (they suppress nothing); the
+                  mechanism for `known` entries (a decidable predicate on shape, api, depth) is kept for future findings.
+  tie             the witness family of theorem C11_parser_alone_has_no_nesting_limit_remark is the real scanner's output up to
+                  the limit: `hx tokens` on "- " * d + "a" (d <= 255) is compared with
+                  StreamStart (BlockSequenceStart BlockEntry)^d Scalar BlockEnd^d StreamEnd, beyond the limit model pipeline and
+                  implementation must give the same error at the same position; the extracted parser model is run on the real
+                  tokens and on the text (events == implementation's events), the depth reported by hx_c11 equals the intended
+                  depth for every shape, and the flow and block limits of model (Err site 45 / 46) and implementation coincide
+                  in position and verdict; Gen/Consts.v FLOW_LEVEL_MAX = BLOCK_NESTING_MAX = 255.
 
   oracle 2        the extracted Coq function [c11_oracle] (Model/Depth.v; theorem C11_oracle_holds_on_model says it cannot fail on
                   the model) is run on the IMPLEMENTATION's tokens (`hx tokens`) and events (`hx events str`) of generated inputs
-                  (the families at small depths and at the flow-limit boundary, token / line / flow soups of vlib/gen.py, nesting
-                  soups): (h) the flow level along the real token stream stays within 255, (g) the real events nest at most twice as
-                  deep as the real tokens — what the defect repaired by c5ad60c violated: a regression of it is reported by this
-                  oracle with the failing input, (i) both combined.
+                  (the families at small depths, at the limit boundary and DEEP (1000, 20000 levels), token / line / flow soups of
+                  vlib/gen.py, nesting soups): (h) the flow level along the real token stream stays within 255, (g) the real
+                  events nest at most twice as deep as the real tokens, (i) both combined, (k) NEW: the real events nest at most
+                  NEST_BOUND deep — the constant of theorem C11_text_nesting_bounded; a real input nested deeper is a VIOLATION.
 
-Known finding (recorded, not repaired): block nesting has no limit and Parser::load, the destructor of the loaded tree and
-YamlEmitter recurse once per level, so a few dozen kilobytes of block-nested input overflow the 8 MiB stack and abort the
-process.  An abort is attributed to that class iff   shape in entry.shapes  and  api in entry.apis  and
-depth >= entry.min_depth // MARGIN  and the child died of SIGABRT/SIGSEGV after the runtime reported a stack overflow.
-A second recorded class, C11-flow-limit-bypass (shapes `colons`, `colonsok`), is handled in exactly the same way: flow-only inputs that
-nest without raising the scanner's flow_level above 1 ("[" + " :" repeated: one synthetic FlowMappingStart per bare colon; closed by a
-"]" the parse ends in an error at the "]", closed by as many "}" and a "]" the text is ACCEPTED), so the 255 limit never triggers and
-load / drop / emit overflow.
-The former first member of that class, shape `qflow` ("[ ? ] , " repeated: the parser consumed the "]" as the end of the empty key), was
-repaired by c5ad60c; its scenarios stay as REGRESSION scenarios with an oracle of their own: every one of them, at every depth and
-through every api, must end with the error VALUE "did not find expected <document start>" — an accepted text or an abort is a violation
-(known_findings_c11.jsonl holds a `fixed` entry for it, which suppresses nothing).
-MARGIN = 4: min_depth is the smallest aborting depth measured over both profiles (debug opt-level 1, release opt-level 2);
-frame sizes move with profile and compiler version (measured release/debug threshold ratios 0.93-1.14; an unoptimised build may
-need 2-3 times the stack per level),
-ASLR and environment size move the threshold by a few levels; a factor 4 below the recorded minimum is outside all of that,
-so an abort there (or through the iterator, or for flow nesting, or of any other kind) is reported as a violation.
+History of the recorded classes (all repaired; each keeps its scenarios as REGRESSION scenarios with an oracle of its own):
+  qflow    "[ ? ] , " repeated           c5ad60c   must be "did not find expected <document start>"
+  seq/map/qkey/alt/mix (block nesting)   99c201b   must be OK up to the limit, "recursion limit exceeded" beyond
+  colons / colonsok ("[ : : : ..")       597a354   d >= 2: "did not find expected node content" / the scan error of the '}'
+  cbrace   "[ : } , " repeated           88700d3   must be "while parsing a flow sequence, expected ',' or ']'"
+
+Known finding (recorded, not repaired): C11-alias-chain-tree-depth, shape `alias` ("- &a0 [x]" / "- &a<i> [*a<i-1>]").  The events nest
+2 deep, so no nesting limit applies; the loader clones the anchored node at every alias, the loaded tree is d + 1 deep (~d^2/2 nodes)
+and Clone (inside Yaml::load_from_str), Drop and the emitter recurse once per level: stack overflow from d = 6546 (debug) / 7702
+(release) on, at 4 - 5.6 GB RSS.  An abort is attributed to that class iff  shape in entry.shapes  and  api in entry.apis  and
+depth >= entry.min_depth // MARGIN  and the child died of SIGABRT/SIGSEGV after the runtime reported a stack overflow (MARGIN = 4:
+frame sizes move with profile and compiler version).  The scenarios run two at a time under a 12 GB address-space cap; an allocation
+failure is kind OOM (reported as inconclusive), never the recorded class.  The quick tier stays below the threshold (depth <= 4000,
+1.5 GB), so the KNOWN-FINDING line appears in the thorough tier only.  Model: theorems C11_alias_chain_family,
+C11_tree_depth_not_bounded_by_nesting_refuted, C11_loaded_tree_depth_bounded_by_collection_starts.
 """
 import concurrent.futures
 import json
 import os
 import re
+import resource
 import signal
 import subprocess
 import time
@@ -60,13 +63,33 @@ ID = "C11"
 KNOWN_FILE = os.path.join(core.VERIF, "known_findings_c11.jsonl")
 MARGIN = 4
 FLOW_LIMIT = 255                      # the property's number; cross-checked with Gen/Consts.v FLOW_LEVEL_MAX
+BLOCK_LIMIT = 255                     # cross-checked with Gen/Consts.v BLOCK_NESTING_MAX
 BLOCK_SHAPES = ["seq", "map", "qkey", "alt", "mix"]
+PURE_BLOCK_SHAPES = ["seq", "map", "qkey", "alt"]      # d block levels; `mix` has d - min(d, 100) block levels
 FLOW_SHAPES = ["fseq", "fmap"]
-# flow-only inputs that nest without raising the scanner's flow_level above 1 (the 255 limit never triggers)
-BYPASS_SHAPES = ["colons", "colonsok"]
-# repaired (c5ad60c): must be an error value at every depth
-REGRESSION_SHAPES = ["qflow"]
-SHAPES = BLOCK_SHAPES + FLOW_SHAPES + BYPASS_SHAPES + REGRESSION_SHAPES
+# repaired bypass families: must be the error value of the repaired code at every depth, through every api
+#   shape -> (commit, text of the error value, smallest depth from which the text must be rejected)
+REGRESSION = {
+    "qflow": ("c5ad60c", "did not find expected <document start>", 1),
+    "colons": ("597a354", "did not find expected node content", 2),
+    "colonsok": ("597a354", "", 1),        # d = 1: the '}' (88700d3); d >= 2: the second ':' or the '}', whichever the api meets first
+    "cbrace": ("88700d3", "while parsing a flow sequence, expected ',' or ']'", 1),
+}
+COLONSOK_ERRORS = ("did not find expected node content", "while parsing a flow sequence, expected ',' or ']'")
+REGRESSION_SHAPES = list(REGRESSION)
+SHAPES = BLOCK_SHAPES + FLOW_SHAPES + REGRESSION_SHAPES
+# ALIAS CHAIN: "- &a0 [x]" / "- &a<i> [*a<i-1>]": event nesting 2 (no nesting limit applies), loaded tree d + 1 deep, ~d^2/2 nodes.
+# Memory is quadratic in d (1.5 GB at 4000, 3.4 GB at 6000, 5.6 GB at 7700): these scenarios run at most ALIAS_POOL at a time under an
+# address-space cap, an allocation failure is reported as OOM (inconclusive), never confused with the stack abort.
+ALIAS_SHAPE = "alias"
+ALIAS_APIS = ["iter", "load", "drop", "emit"]
+ALIAS_TREE_APIS = ["drop", "emit"]
+ALIAS_LIGHT = [1, 2, 10, 100, 1000]
+ALIAS_FLAT_EXTRA = [6000, 100000]                 # iter / load build no tree
+ALIAS_TREE_QUICK = [3000, 4000]
+ALIAS_TREE_THOROUGH = [3000, 4000, 5000, 6000, 7000, 8000, 9000]
+ALIAS_MEM_CAP_GB = 12
+ALIAS_POOL = 2
 APIS = ["iter", "load", "drop", "emit"]
 AUX_APIS = ["pdrop", "pemit"]         # drop / emit of a tree built WITHOUT Parser::load: their own thresholds
 RECURSIVE_APIS = ["load", "drop", "emit", "pdrop", "pemit"]
@@ -74,16 +97,14 @@ SHAPE_TEXT = {"seq": "'- ' per level", "map": "'a:' + newline per level, indenta
               "qkey": "'? ' per level", "alt": "alternating '- ' / '? '", "fseq": "'[' per level, closed",
               "fmap": "'{a: ' per level, closed", "mix": "'- ' levels around a core of (at most) 100 '[' levels",
               "qflow": "'[ ? ] , ' per level then d closing ']' (regression: was accepted as d nested flow sequences before c5ad60c; must be an error value)",
-              "colons": "'[' + ' :' per level + ']' (d nested synthetic flow mappings at scanner flow level 1; ends in a parse error)",
-              "colonsok": "'[' + ' :' per level + ' ' + '}' per level + ']' (d nested synthetic flow mappings at scanner flow level 1; accepted)"}
+              "colons": "'[' + ' :' per level + ']' (regression: d nested synthetic flow mappings at scanner flow level 1 before 597a354; must be an error value for d >= 2)",
+              "colonsok": "'[' + ' :' per level + ' ' + '}' per level + ']' (regression: accepted with d nested synthetic flow mappings before 597a354; must be an error value)",
+              "alias": "'- &a0 [x]' then '- &a<i> [*a<i-1>]' per level (alias chain: event nesting 2, loaded tree depth d + 1, ~d^2/2 nodes)",
+              "cbrace": "'[ : } , ' per level then d closing ']' (regression: accepted as d nested flow sequences at scanner flow level 1 before 88700d3; must be an error value)"}
 # the `map` input has d*(d+5)/2 bytes (10^5 levels = 5 GB): capped
 MAP_CAP = {"quick": 20000, "thorough": 40000}
-# inputs whose recursive consumers are quadratic in time (every level re-hashes its whole key): aux apis capped
-SLOW_CAP = 12000
 QUICK_DEPTHS = [1, 10, 100, 255, 256, 257, 1000, 3000, 10000, 30000, 100000]
 THOROUGH_EXTRA = [2, 3, 5, 20, 50, 200, 254, 258, 300, 500, 2000, 5000, 7000, 15000, 20000, 25000, 40000, 50000, 70000]
-COLONSOK_PEMIT_CAP = 40000
-QFLOW_ERROR = "did not find expected <document start>"
 TIMEOUT = 300
 POOL = 16
 
@@ -107,6 +128,10 @@ def build_input(shape, d):
         return "- " * (d - f) + "[" * f + "a" + "]" * f
     if shape == "qflow":
         return "[ ? ] , " * (d - 1) + ("[ ? ] " if d else "") + "]" * d
+    if shape == "alias":
+        return "".join("- &a0 [x]\n" if i == 0 else "- &a%d [*a%d]\n" % (i, i - 1) for i in range(d))
+    if shape == "cbrace":
+        return "[ : } , " * (d - 1) + ("[ : } " if d else "") + "]" * d
     if shape == "colons":
         return "[" + " :" * d + "]"
     if shape == "colonsok":
@@ -121,9 +146,14 @@ def exe(profile):
 def run_child(profile, shape, depth, api):
     """one scenario in its own process -> observation dict"""
     t0 = time.time()
+    cap = None
+    if shape == ALIAS_SHAPE:
+        def cap():
+            lim = ALIAS_MEM_CAP_GB * (1 << 30)
+            resource.setrlimit(resource.RLIMIT_AS, (lim, lim))
     try:
         p = subprocess.run([exe(profile), shape, str(depth), api], stdin=subprocess.DEVNULL, stdout=subprocess.PIPE,
-                           stderr=subprocess.PIPE, timeout=TIMEOUT, env=core.ENV)
+                           stderr=subprocess.PIPE, timeout=TIMEOUT, env=core.ENV, preexec_fn=cap)
         rc, out, err = p.returncode, p.stdout.decode("utf-8", "replace"), p.stderr.decode("utf-8", "replace")
     except subprocess.TimeoutExpired as e:
         rc, out, err = None, (e.stdout or b"").decode("utf-8", "replace"), (e.stderr or b"").decode("utf-8", "replace")
@@ -133,8 +163,11 @@ def run_child(profile, shape, depth, api):
     stages = [l[6:] for l in lines if l.startswith("STAGE ")]
     verdict = next((l for l in reversed(lines) if not l.startswith("STAGE ")), "")
     overflow = "overflowed its stack" in err or "stack overflow" in err
+    oom = (not overflow) and ("memory allocation of" in err or "failed to spawn thread" in err or "Cannot allocate memory" in err)
     if rc is None:
         kind = "TIMEOUT"
+    elif oom:
+        kind = "OOM"
     elif rc == 0 and verdict.startswith("OK"):
         kind = "OK"
     elif rc == 0 and verdict.startswith("ERR"):
@@ -182,10 +215,6 @@ def scenario_depths(tier, shape, api, depths):
     cap = None
     if shape == "map":
         cap = MAP_CAP[tier]
-    if api in AUX_APIS and shape in ("qkey", "alt"):
-        cap = SLOW_CAP
-    if api == "pemit" and shape == "colonsok":
-        cap = COLONSOK_PEMIT_CAP     # the block rendering of the tree is quadratic in the depth (900 MB at 30000)
     ds = sorted(set(min(d, cap) if cap else d for d in depths))
     return ds
 
@@ -195,44 +224,61 @@ def reported_depth(verdict):
     return int(m.group(1)) if m else None
 
 
+def block_levels(shape, depth):
+    """number of block collections the scanner has to open for the text of a block shape"""
+    return depth - min(depth, 100) if shape == "mix" else depth
+
+
 def judge(res, o, known, hits):
     """apply the oracle to one observation"""
     shape, depth, api, kind = o["shape"], o["depth"], o["api"], o["kind"]
     case = dict(scenario="hx_c11 %s %d %s (%s profile)" % (shape, depth, api, o["profile"]), shape=SHAPE_TEXT[shape],
                 depth=depth, api=api, profile=o["profile"],
-                input=build_input(shape, depth) if depth <= 300 and shape != "map" else "(see scenario: generated by hx_c11)")
-    if shape in REGRESSION_SHAPES:
-        # repaired class: no suppression; the only acceptable outcome is the error value of the repaired parser
-        if kind == "OK":
-            res.add_violation("regression of c5ad60c: the '[ ? ] , ' text is ACCEPTED again (flow nesting that bypasses the scanner's "
-                              "flow-level limit: the parser consumed the ']' behind an empty explicit key)", case, observation=o)
-            return
-        if kind == "ERR" and QFLOW_ERROR not in o["verdict"]:
-            res.add_tie_break("the '[ ? ] , ' text is rejected, but not with the error the parser model gives (site 3: %s)" % QFLOW_ERROR,
-                              case=case, observation=o)
-        if kind == "ERR":
-            return
+                input=build_input(shape, depth) if depth <= 300 and shape not in ("map", ALIAS_SHAPE) else "(see scenario: generated by hx_c11)")
     if kind == "ABORT":
-        e = known_entry(known, o)
+        e = known_entry(known, o)          # no `known` entry is recorded today: every abort is a violation
         if e is not None:
             hits.setdefault((e["class"], shape), []).append(o)
             return
         why = ("killed by %s%s" % (o["signal"], " (stack overflow)" if o["stack_overflow"] else ""))
-        if shape in REGRESSION_SHAPES:
-            why += " for the repaired '[ ? ] , ' family (c5ad60c), which must end with an error value at every depth"
+        if shape in REGRESSION:
+            why += " for the repaired family `%s` (%s), which must end with an error value at every depth" % (shape, REGRESSION[shape][0])
+        elif shape == ALIAS_SHAPE:
+            why += (" for the ALIAS CHAIN outside the recorded class (depth below min_depth/%d of the known-findings entry, api without a tree, "
+                    "or not a stack overflow)" % MARGIN)
         elif api == "iter":
             why += " through the ITERATOR api, which must not depend on the call stack"
         elif shape in FLOW_SHAPES:
             why += " for FLOW nesting, which must fail with an error value at depth %d" % (FLOW_LIMIT + 1)
         else:
-            why += " outside the recorded class (depth below min_depth/%d of every matching known-findings entry, or not a stack overflow)" % MARGIN
+            why += (" for BLOCK nesting, which must fail with the error value 'recursion limit exceeded' beyond %d levels "
+                    "(regression of 99c201b?)" % BLOCK_LIMIT)
         res.add_violation("process aborted: " + why, case, observation=o)
+        return
+    if kind == "OOM":
+        # inconclusive, not a verdict: recorded in the evidence (notes, coverage), never attributed to the stack-overflow class
+        res.notes.append("INCONCLUSIVE %s: out of memory under the %d GB address-space cap (not a stack overflow; the alias-chain tree needs "
+                         "~d^2/2 nodes): %s" % (case["scenario"], ALIAS_MEM_CAP_GB, o["stderr"][:120]))
+        res.coverage.setdefault("inconclusive_oom", []).append(case["scenario"])
         return
     if kind in ("PANIC", "TIMEOUT", "EXIT"):
         res.add_violation("scenario ended with %s instead of success or an error value (%s)" % (kind, o["verdict"] or o["stderr"] or o["rc"]),
                           case, observation=o)
         return
     # OK / ERR
+    if shape in REGRESSION:
+        commit, text, from_depth = REGRESSION[shape]
+        if depth >= from_depth and kind == "OK":
+            res.add_violation("regression of %s: the `%s` text of depth %d is ACCEPTED again (flow nesting that bypasses the scanner's "
+                              "flow-level limit)" % (commit, shape, depth), case, observation=o)
+        elif depth >= from_depth:
+            texts = COLONSOK_ERRORS if shape == "colonsok" else (text,)
+            if not any(t in o["verdict"] for t in texts):
+                res.add_tie_break("the `%s` text is rejected, but not with the error value of the repaired code (%s)" % (shape, " / ".join(texts)),
+                                  case=case, observation=o)
+        elif kind != "OK":
+            res.add_tie_break("the `%s` text of depth %d (below the depth from which it must be rejected) is not accepted" % (shape, depth),
+                              case=case, observation=o)
     if shape in FLOW_SHAPES:
         if depth > FLOW_LIMIT and kind == "OK":
             res.add_violation("flow nesting deeper than %d accepted (the scanner's flow-level limit is gone)" % FLOW_LIMIT, case, observation=o)
@@ -242,10 +288,23 @@ def judge(res, o, known, hits):
         elif depth <= FLOW_LIMIT and kind != "OK":
             res.add_tie_break("flow nesting within the limit of the model (FLOW_LEVEL_MAX) is rejected by the implementation",
                               case=case, observation=o)
+    if shape in BLOCK_SHAPES:
+        bl = block_levels(shape, depth)
+        if bl > BLOCK_LIMIT and kind == "OK":
+            res.add_violation("block nesting deeper than %d accepted (regression of 99c201b: the limit of roll_indent is gone)" % BLOCK_LIMIT,
+                              case, observation=o)
+        elif bl > BLOCK_LIMIT and "recursion limit exceeded" not in o["verdict"]:
+            res.add_tie_break("block nesting beyond the limit is rejected, but not by the limit of roll_indent the model describes (site 46)",
+                              case=case, observation=o)
+        elif bl <= BLOCK_LIMIT and kind != "OK":
+            res.add_tie_break("block nesting within the limit of the model (BLOCK_NESTING_MAX) is rejected by the implementation",
+                              case=case, observation=o)
+    if shape == ALIAS_SHAPE and kind != "OK":
+        res.add_violation("the alias chain of %d lines (event nesting 2) ended with an error value: it is well-formed YAML" % depth, case, observation=o)
     if kind == "OK" and api in ("iter", "load"):
         rd = reported_depth(o["verdict"])
-        # colons / colonsok: d mappings inside the one sequence
-        if rd != (depth + 1 if shape in BYPASS_SHAPES else depth):
+        # colons / colonsok of depth 1: one mapping inside the one sequence; alias chain: the events nest 2 deep whatever d
+        if rd != (2 if shape == ALIAS_SHAPE else depth + 1 if shape in ("colons", "colonsok") else depth):
             res.add_tie_break("the generated input does not have the intended nesting depth", case=case, observation=o)
 
 
@@ -258,6 +317,19 @@ def sweep(profile, tier, depths, shapes, apis, pool):
     # long ones first
     jobs.sort(key=lambda j: -(j[2] * (50 if j[1] in ("qkey", "alt", "map") else 1)))
     return list(pool.map(lambda j: run_child(*j), jobs))
+
+
+def alias_jobs(profile, tier):
+    jobs = []
+    for api in ALIAS_APIS:
+        ds = list(ALIAS_LIGHT)
+        if api in ALIAS_TREE_APIS:
+            ds += ALIAS_TREE_QUICK if tier == "quick" else ALIAS_TREE_THOROUGH
+        else:
+            ds += ALIAS_FLAT_EXTRA
+        jobs += [(profile, ALIAS_SHAPE, d, api) for d in sorted(set(ds))]
+    jobs.sort(key=lambda j: -j[2] if j[3] in ALIAS_TREE_APIS else 0)
+    return jobs
 
 
 def bracket(obs, profile, shape, api):
@@ -319,30 +391,59 @@ def tie_checks(res, tier):
         n += 1
         tk, tfin = split_line(t)
         got = [x.rsplit("@", 1)[0] for x in tk]
-        want = ["SS"] + ["BSS", "BEN"] * d + ["SCP,97"] + ["BE"] * d + ["SE"]
-        if got != want or tfin != "END":
-            res.add_tie_break("the real scanner's tokens for '- '*%d+'a' are not the witness family of C11_block_family_accepted" % d,
-                              got=";".join(got)[:300], want=";".join(want)[:300])
         ek = kinds(e)
-        want_ev = ["SS", "DS0"] + ["QS,0"] * d + ["SC,0"] + ["QE"] * d + ["DE", "SE"]
-        if ek != ";".join(want_ev) + "|OK":
-            res.add_tie_break("the implementation's events for '- '*%d+'a' are not the sentence of the theorem (seq_events)" % d, got=ek[:300])
-        if kinds(mt) != ek:
+        if d <= BLOCK_LIMIT:
+            want = ["SS"] + ["BSS", "BEN"] * d + ["SCP,97"] + ["BE"] * d + ["SE"]
+            if got != want or tfin != "END":
+                res.add_tie_break("the real scanner's tokens for '- '*%d+'a' are not the witness family of C11_parser_alone_has_no_nesting_limit_remark" % d,
+                                  got=";".join(got)[:300], want=";".join(want)[:300])
+            want_ev = ["SS", "DS0"] + ["QS,0"] * d + ["SC,0"] + ["QE"] * d + ["DE", "SE"]
+            if ek != ";".join(want_ev) + "|OK":
+                res.add_tie_break("the implementation's events for '- '*%d+'a' are not the sentence of the theorem (seq_events)" % d, got=ek[:300])
+        else:
+            # beyond the limit of roll_indent: the 256th BlockSequenceStart is never delivered
+            efin = split_line(e)[1]
+            if not tfin.startswith("ERR") or "recursion limit exceeded" not in tfin or got.count("BSS") > BLOCK_LIMIT:
+                res.add_violation("the real scanner does not reject '- '*%d+'a' with 'recursion limit exceeded' after at most %d BlockSequenceStart tokens "
+                                  "(regression of 99c201b)" % (d, BLOCK_LIMIT), dict(input="'- ' * %d + 'a'" % d, depth=d),
+                                  got=(";".join(got)[-200:] + "|" + tfin)[:300])
+            if not efin.startswith("ERR") or ek.count("QS,0") > BLOCK_LIMIT:
+                res.add_violation("the implementation's events for '- '*%d+'a' nest deeper than %d or do not end in an error value" % (d, BLOCK_LIMIT),
+                                  dict(input="'- ' * %d + 'a'" % d, depth=d), got=ek[-300:])
+            if fin_pos(split_line(mf)[1]) != fin_pos(efin) or "#s46" not in split_line(mf)[1]:
+                res.add_tie_break("block limit: model (site 46) and implementation disagree (verdict / error position)", depth=d,
+                                  impl=efin[:120], model=split_line(mf)[1][:120])
+        if kinds(mt) != ek and d <= BLOCK_LIMIT:
             res.add_tie_break("correspondence: parser model on the real tokens != real events", depth=d, model=kinds(mt)[:300], impl=ek[:300])
         if kinds(mf) != ek:
             res.add_tie_break("correspondence: model pipeline != real events", depth=d, model=kinds(mf)[:300], impl=ek[:300])
-    # the families of the theorems: the real scanner's tokens are the ones of the Coq witnesses (qflow_tokens, cflow_tokens:
-    # the FlowMappingStart of a bare ':' has an EMPTY span, the '[' a non-empty one), the parser model on them / the model
-    # pipeline give the implementation's events; qflow is rejected after nine events (theorem C11_qflow_family_rejected),
-    # colons nests d mappings and fails at the ']', colonsok is accepted and nests d + 1 deep (C11_flow_limit_bypass_family)
+    # block limit for the other block shapes: model and implementation, verdict and position
+    bl = [1, 2, 254, 255, 256, 257, 300]
+    btx = [build_input(sh, d) for sh in ("qkey", "alt", "mix") for d in bl] + [build_input("map", d) for d in (1, 2, 40, 100)]   # 33 KB at 255 levels: too much for the extracted model (nat fuel)
+    bln = [enc(x) for x in btx]
+    bi = _retry(lambda: run_hx(["events", "str"], bln))
+    bm = _retry(lambda: run_mx(["events", "str"], bln))
+    for x, i_, m_ in zip(btx, bi, bm):
+        n += 1
+        ifin, mfin = split_line(i_)[1], split_line(m_)[1]
+        if kinds(i_) != kinds(m_) or fin_pos(ifin) != fin_pos(mfin):
+            res.add_tie_break("block limit: model pipeline and implementation disagree (events / verdict / error position)",
+                              input=x[:60], bytes=len(x), impl=ifin[:120], model=mfin[:120])
+        if ifin.startswith("ERR") and ("recursion limit exceeded" in ifin) != ("#s46" in mfin or "#s45" in mfin):
+            res.add_tie_break("block limit: the implementation's 'recursion limit exceeded' is not the model's site 45/46", input=x[:60],
+                              impl=ifin[:120], model=mfin[:120])
+    # the repaired families: the real scanner's tokens of qflow are the Coq witnesses (qflow_tokens), rejected after nine events
+    # (theorem C11_qflow_family_rejected); colons / colonsok / cbrace: model pipeline and implementation give the same events and
+    # the same error at the same position, nothing nests deeper than 2, and from the depth of REGRESSION on the text is rejected
     bd = [1, 2, 3, 4, 5, 6, 255, 256, 300]
-    fams = ["qflow", "colons", "colonsok"]
+    fams = ["qflow", "colons", "colonsok", "cbrace"]
     btexts = [build_input(sh, d) for sh in fams for d in bd]
     blines = [enc(x) for x in btexts]
     btoks = _retry(lambda: run_hx(["tokens"], blines))
     bevs = _retry(lambda: run_hx(["events", "str"], blines))
     bm_tok = _retry(lambda: run_mx(["parse-tokens"], btoks))
     bm_full = _retry(lambda: run_mx(["events", "str"], blines))
+    bm_toks = _retry(lambda: run_mx(["tokens"], blines))
 
     def span_empty(x):
         a, b = x.rsplit("@", 1)[1].split("-")
@@ -365,19 +466,18 @@ def tie_checks(res, tier):
                     res.add_violation("regression of c5ad60c: the '[ ? ] , ' text of depth %d is not rejected after its first '[ ? ]' "
                                       "(events must be one sequence holding one empty pair, then an error)" % d,
                                       dict(input=btexts[i], depth=d), got=ek[:300])
-            elif sh == "colons":
-                opens = ek.count("MS,0")
-                if opens != d or not (ek.endswith("|ERR") or d == 1):
-                    res.add_tie_break("the implementation's events for '[' + ' :'*%d + ']' are not d nested mappings followed by an error" % d, got=ek[:300])
             else:
-                want = ["SS", "FSS"] + ["FMS", "V"] * d + ["FME"] * d + ["FSE", "SE"]
-                if got != want or tfin != "END":
-                    res.add_tie_break("the real scanner's tokens for the colonsok text of depth %d are not the Coq witness family cflow_tokens" % d,
-                                      got=";".join(got)[:300], want=";".join(want)[:300])
-                want_ev = ["SS", "DS0", "QS,0"] + ["MS,0", "SC,0"] * d + ["SC,0"] + ["ME"] * d + ["QE", "DE", "SE"]
-                if ek != ";".join(want_ev) + "|OK":
-                    res.add_tie_break("the implementation's events for the colonsok text of depth %d are not a sequence holding d nested mappings, accepted" % d,
-                                      got=ek[:300])
+                commit, _text, from_depth = REGRESSION[sh]
+                opens = ek.count("MS,0") + ek.count("QS,0")
+                if d >= from_depth and not ek.endswith("|ERR"):
+                    res.add_violation("regression of %s: the `%s` text of depth %d is not rejected" % (commit, sh, d),
+                                      dict(input=btexts[i], depth=d), got=ek[:300])
+                if opens > 2 or got.count("FMS") > 1:
+                    res.add_violation("regression of %s: the `%s` text of depth %d nests again (%d collection starts in the events, %d FlowMappingStart "
+                                      "tokens at one flow level)" % (commit, sh, d, opens, got.count("FMS")), dict(input=btexts[i], depth=d), got=ek[:300])
+                mt_, mtfin = split_line(bm_toks[i])
+                if [x.rsplit("@", 1)[0] for x in mt_] != got or fin_pos(mtfin) != fin_pos(tfin):
+                    res.add_tie_break("correspondence (%s): scanner model tokens != real tokens" % sh, depth=d, model=bm_toks[i][-200:], impl=btoks[i][-200:])
             # what tells a synthetic FlowMappingStart from a real one (Model/Depth.v real_flow_open): the span
             for x in tk_:
                 kind = x.rsplit("@", 1)[0]
@@ -386,7 +486,7 @@ def tie_checks(res, tier):
                                       shape=sh, depth=d, token=x)
                 if kind == "FSS" and span_empty(x):
                     res.add_tie_break("a FlowSequenceStart token has an empty span", shape=sh, depth=d, token=x)
-            if kinds(bm_tok[i]) != ek:
+            if tfin == "END" and kinds(bm_tok[i]) != ek:
                 res.add_tie_break("correspondence (%s): parser model on the real tokens != real events" % sh, depth=d, model=kinds(bm_tok[i])[:300], impl=ek[:300])
             if kinds(bm_full[i]) != ek or fin_pos(split_line(bm_full[i])[1]) != fin_pos(split_line(bevs[i])[1]):
                 res.add_tie_break("correspondence (%s): model pipeline != real events" % sh, depth=d, model=kinds(bm_full[i])[:300], impl=ek[:300])
@@ -405,12 +505,16 @@ def tie_checks(res, tier):
                 res.add_tie_break("flow limit: model and implementation disagree (verdict / error position)", shape=sh, depth=d,
                                   impl=ifin[:120], model=mfin[:120])
             k += 1
-    # the generated constant the flow theorem is about
+    # the generated constants the theorems are about
     try:
         txt = open(os.path.join(core.COQ, "Gen", "Consts.v")).read()
         m = re.search(r"FLOW_LEVEL_MAX : N := (\d+)\.", txt)
         if not m or int(m.group(1)) != FLOW_LIMIT:
             res.add_tie_break("Gen/Consts.v FLOW_LEVEL_MAX is not %d: the declared type of Scanner::flow_level changed" % FLOW_LIMIT,
+                              found=m.group(1) if m else None)
+        m = re.search(r"BLOCK_NESTING_MAX : N := (\d+)\.", txt)
+        if not m or int(m.group(1)) != BLOCK_LIMIT:
+            res.add_tie_break("Gen/Consts.v BLOCK_NESTING_MAX is not %d: the constant of scanner.rs changed (adapt BLOCK_LIMIT; the theorems follow Gen/Consts.v)" % BLOCK_LIMIT,
                               found=m.group(1) if m else None)
     except OSError as e:
         res.add_tie_break("Gen/Consts.v unreadable", error=str(e))
@@ -429,8 +533,11 @@ def nest_soups(n, rng, maxlen=30):
     return out
 
 
+DEEP_ORACLE_DEPTHS = [1000, 20000]    # the iterator api does not recurse: the in-process `hx tokens` / `hx events` survive these
+
+
 def oracle_checks(res, tier, rng):
-    """theorems (g), (h), (i) of Properties/C11.v as an executable oracle on the implementation's tokens and events"""
+    """theorems (g), (h), (i), (h'), (k) of Properties/C11.v as an executable oracle on the implementation's tokens and events"""
     n = 1500 if tier == "quick" else 25000
     groups = []
     fam = []
@@ -440,6 +547,12 @@ def oracle_checks(res, tier, rng):
     fam += ["[ ? [ ? [ ? a ] ] ]", "[a: b: c: d]", "[ ? ]", "[ ? ] ]", "[ ? : x ]", "a:\n- b\n- c\n", "? - a\n: - b\n",
             "[" * 300, "{" * 300, "[{" * 150, "{a: [" * 130 + "x" + "]}" * 130]
     groups.append(("families", fam))
+    # DEEP inputs: far beyond every limit; the real events must stay within the constant of theorem (k)
+    deep = [build_input(sh, d) for sh in SHAPES if sh != "map" for d in DEEP_ORACLE_DEPTHS] + [build_input("map", 300)]
+    # the deepest nesting the limits allow in one text: block levels around single-pair flow levels
+    deep += ["- " * 255 + "[ ? " * 255 + "a" + " ]" * 255, "- " * 255 + "[a: " * 255 + "b" + "]" * 255,
+             "? " * 255 + "{a: [ b: " * 127 + "c" + "]}" * 127, "- " * 300 + "[" * 300, "- " * 254 + "a: [ ? [ b: {c: [" * 60]
+    groups.append(("deep", deep))
     groups.append(("nest-soups", nest_soups(n, rng)))
     groups.append(("soups", gen.soups(n, rng)))
     groups.append(("line-soups", gen.line_soups(n, rng)))
@@ -455,37 +568,51 @@ def oracle_checks(res, tier, rng):
         tk, tfin = split_line(t)
         ek, efin = split_line(e)
         if "CRASH" in tfin or "TIMEOUT" in tfin or "CRASH" in efin or "TIMEOUT" in efin:
-            res.add_violation("the scanner / the pull parser did not end with success or an error value on a short input (%s / %s)" % (tfin[:40], efin[:40]),
-                              dict(input=texts[i]))
+            res.add_violation("the scanner / the pull parser did not end with success or an error value (%s / %s)" % (tfin[:40], efin[:40]),
+                              dict(input=texts[i] if len(texts[i]) <= 400 else texts[i][:400] + "...", bytes=len(texts[i])))
             continue
         cases.append(";".join(tk) + "\t" + ";".join(ek))
         idx.append(i)
     out = _retry(lambda: run_mx(["oracle"], cases, tag="C11"))
     deepest = 0
-    stats = dict(cases=len(cases), flow_max=0, tight=0)
+    stats = dict(cases=len(cases), flow_max=0, tight=0, deepest_token_nesting=0)
     for i, o in zip(idx, out):
         res.evaluations += 1
-        m = re.match(r"^([01])([01])([01]) flow=(\d+) nest=(\d+) other=(\d+) depth=(\d+)$", o)
+        m = re.match(r"^([01])([01])([01])([01])([01]) flow=(\d+) nest=(\d+) other=(\d+) depth=(\d+) tokbound=(\d+) bound=(\d+)$", o)
         if not m:
             res.add_tie_break("the C11 oracle could not read the implementation's tokens / events", input=texts[i][:200], got=o[:200])
             continue
-        h, g, c, fl, ne, ot, de = m.group(1), m.group(2), m.group(3), int(m.group(4)), int(m.group(5)), int(m.group(6)), int(m.group(7))
-        case = dict(input=texts[i] if len(texts[i]) <= 400 else texts[i][:400] + "...", flow_level_max=fl, token_nesting=ne,
-                    uncounted_starts=ot, event_nesting=de)
+        h, g, c, tb_ok, kb_ok = m.group(1), m.group(2), m.group(3), m.group(4), m.group(5)
+        fl, ne, ot, de, tbound, bound = (int(m.group(j)) for j in range(6, 12))
+        stats["token_nesting_bound"], stats["event_nesting_bound"] = tbound, bound
+        case = dict(input=texts[i] if len(texts[i]) <= 400 else texts[i][:400] + "...", bytes=len(texts[i]), flow_level_max=fl, token_nesting=ne,
+                    uncounted_starts=ot, event_nesting=de, token_nesting_bound=tbound, event_nesting_bound=bound)
         if h != "1":
             res.add_violation("the scanner delivered more than %d unmatched '[' / '{' tokens (flow level %d): the flow-level limit is gone" % (FLOW_LIMIT, fl), case)
         if g != "1":
             res.add_violation("the events nest deeper (%d) than twice the nesting of the tokens (%d): the parser opened a collection without a "
                               "collection-start token or consumed a collection-end token without closing (the class of defect repaired by c5ad60c)" % (de, ne), case)
+        if tb_ok != "1":
+            res.add_violation("the scanner delivered a token stream with %d collection starts open at once, more than the constant NEST_TOK_BOUND = %d of "
+                              "theorem C11_scanner_token_nesting_bounded: a nesting limit of the scanner is gone or bypassed" % (ne, tbound), case)
+        if kb_ok != "1":
+            res.add_violation("the implementation's events nest %d deep, deeper than the constant NEST_BOUND = %d of theorem C11_text_nesting_bounded: "
+                              "nesting depth is not bounded by the limits of the scanner" % (de, bound), case)
         if h == "1" and g == "1" and c != "1":
             res.add_tie_break("oracle (i) fails although (g) and (h) hold: the arithmetic of the oracle is broken", case=case)
+        if g == "1" and tb_ok == "1" and kb_ok != "1":
+            res.add_tie_break("oracle (k) fails although (g) and (h') hold: the arithmetic of the oracle is broken", case=case)
         if de >= 3:
             res.nontrivial.add(("oracle", texts[i]))
         stats["flow_max"] = max(stats["flow_max"], fl)
+        stats["deepest_token_nesting"] = max(stats["deepest_token_nesting"], ne)
         if de == 2 * ne and ne > 0:
             stats["tight"] += 1
         deepest = max(deepest, de)
     stats["deepest_event_nesting"] = deepest
+    if stats.get("token_nesting_bound") not in (None, BLOCK_LIMIT + 3 * FLOW_LIMIT + 1):
+        res.add_tie_break("the extracted NEST_TOK_BOUND is not BLOCK_NESTING_MAX + 3 * FLOW_LEVEL_MAX + 1 for the limits this check assumes",
+                          found=stats.get("token_nesting_bound"))
     res.coverage["oracle"] = stats
     return len(cases)
 
@@ -503,7 +630,10 @@ def check_C11(tier, seed):
     depths = sorted(set(depths + extra))
     res.coverage["input_distribution"] = dict(
         shapes=SHAPE_TEXT, apis=APIS + AUX_APIS, depths=depths, seeded_extra_depths=extra,
-        caps=dict(map=MAP_CAP[tier], aux_apis_on_qkey_alt=SLOW_CAP, pemit_on_colonsok=COLONSOK_PEMIT_CAP),
+        alias_chain=dict(apis=ALIAS_APIS, depths_all=ALIAS_LIGHT, depths_iter_load=ALIAS_FLAT_EXTRA,
+                         depths_drop_emit=ALIAS_TREE_QUICK if tier == "quick" else ALIAS_TREE_THOROUGH,
+                         mem_cap_gb=ALIAS_MEM_CAP_GB, concurrent=ALIAS_POOL),
+        caps=dict(map=MAP_CAP[tier]),
         profiles=["debug"] + (["release"] if tier == "thorough" else []), stack="8 MiB thread (explicit)")
     res.coverage["known_findings_file"] = dict(path=os.path.relpath(KNOWN_FILE, core.VERIF), entries=len(known), margin=MARGIN)
     if res.harness_ok:
@@ -516,7 +646,27 @@ def check_C11(tier, seed):
             for prof in profiles:
                 obs += sweep(prof, tier, depths, SHAPES, APIS, pool)
                 # the aux apis only where they add information: block shapes, from 1000 levels on
-                obs += sweep(prof, tier, [d for d in depths if d >= 1000], BLOCK_SHAPES + ["qflow", "colonsok"], AUX_APIS, pool)
+                obs += sweep(prof, tier, [d for d in depths if d >= 1000], BLOCK_SHAPES + ["qflow", "colonsok", "cbrace"], AUX_APIS, pool)
+            # the alias chain: few at a time (gigabytes each)
+            with concurrent.futures.ThreadPoolExecutor(max_workers=ALIAS_POOL) as apool:
+                for prof in profiles:
+                    obs += list(apool.map(lambda j: run_child(*j), alias_jobs(prof, tier)))
+                atodo = []
+                for prof in profiles:
+                    for api in ALIAS_TREE_APIS:
+                        b = bracket(obs, prof, ALIAS_SHAPE, api)
+                        if b:
+                            atodo.append((prof, ALIAS_SHAPE, api, b[0], b[1]))
+                afuts = {apool.submit(bisect, p, s_, a, lo, hi, 0.01): (p, s_, a, hi) for (p, s_, a, lo, hi) in atodo}
+                for f in concurrent.futures.as_completed(afuts):
+                    p, s_, a, hi0 = afuts[f]
+                    lo, hi, last, probes = f.result()
+                    obs += probes
+                    if last is None:
+                        last = next(o for o in obs if o["profile"] == p and o["shape"] == s_ and o["api"] == a and o["depth"] == hi)
+                    thresholds.append(dict(profile=p, shape=s_, api=a, largest_surviving=lo, smallest_aborting=hi,
+                                           signal=last["signal"], died_after_stage=(last["stages"] or ["-"])[-1],
+                                           input_bytes=next((x.split("=")[1] for x in last["stages"] if x.startswith("input bytes=")), "?")))
             # thresholds: refine every (largest surviving, smallest aborting) bracket
             rel = 0.05 if tier == "quick" else 0.004
             todo = []
@@ -560,10 +710,10 @@ def check_C11(tier, seed):
             per_api = ", ".join("%s>=%d" % (a, min(o["depth"] for o in os_ if o["api"] == a)) for a in apis)
             e = next(k for k in known if k["class"] == cls and sh in k["shapes"])
             extra = ""
-            if sh == "colonsok":
-                acc = [o["depth"] for o in obs if o["shape"] == "colonsok" and o["kind"] == "OK" and o["depth"] > FLOW_LIMIT]
-                if acc:
-                    extra = "; flow nesting deeper than %d ACCEPTED in %d scenario(s), deepest %d" % (FLOW_LIMIT, len(acc), max(acc))
+            if sh == ALIAS_SHAPE:
+                extra = ("; the events of this input nest only 2 deep (no nesting limit applies): the loader clones the anchored node at every alias, the "
+                         "loaded tree is depth + 1 deep and Clone / Drop / the emitter recurse once per level; memory is quadratic (GBs at the threshold: "
+                         "hosts with less memory hit OOM first)")
             res.known.append("class=%s shape=%s (%s): %d scenario(s) aborted with a stack overflow (%s) through the recursive apis; "
                              "smallest aborting depth per api in this run: %s; recorded min_depth=%d, attributed from depth %d on; "
                              "witness: hx_c11 %s %d %s [%s]%s" % (
@@ -578,11 +728,13 @@ def check_C11(tier, seed):
             res.evaluations += n
             res.coverage["traces_validated_against_impl"] = n
             res.coverage["oracle_cases"] = oracle_checks(res, tier, rng)
-    rule = ("one child process per scenario: nesting depth (fixed ladder 1..10^5 incl. 255/256/257 + seeded log-uniform depths, "
-            "+ bisection of every crash threshold) x 10 shapes (the six of the property + block-around-flow + two flow-limit-bypass families "
-            "+ the repaired '[ ? ] ,' family as a regression scenario that must be an error value) x 4 apis (+ 2 auxiliary "
+    rule = ("[alias chain: 4 apis x depths up to 4000 (quick) / 9000 + bisection (thorough), 2 at a time under a 12 GB cap] "
+            "one child process per scenario: nesting depth (fixed ladder 1..10^5 incl. 255/256/257 + seeded log-uniform depths, "
+            "+ bisection of every crash threshold, should one appear) x 11 shapes (the six of the property + block-around-flow + the four repaired "
+            "flow-limit-bypass families qflow / colons / colonsok / cbrace as regression scenarios that must be an error value) x 4 apis (+ 2 auxiliary "
             "apis isolating drop / emit from Parser::load) on an 8 MiB thread; non-trivial = distinct scenarios of depth >= 1000 or at "
-            "the flow-limit boundary 255/256/257; the `map` shape is capped (input is quadratic in the depth); plus the extracted oracle of theorems "
-            "(g)/(h)/(i) on the implementation's tokens and events of the families, nesting soups and the token / line / flow soups of the C01 space "
+            "the limit boundary 255/256/257; the `map` shape is capped (input is quadratic in the depth); plus the extracted oracle of theorems "
+            "(g)/(h)/(i) and of the constant bound (k) on the implementation's tokens and events of the families (incl. deep ones), nesting soups and "
+            "the token / line / flow soups of the C01 space "
             "(non-trivial there = event nesting >= 3)")
     return res.finish(proof, rule)
